@@ -990,19 +990,6 @@ class QuicConnection:
                     )
                 continue
 
-            # check reserved bits
-            if header.packet_type == QuicPacketType.ONE_RTT:
-                reserved_mask = 0x18
-            else:
-                reserved_mask = 0x0C
-            if plain_header[0] & reserved_mask:
-                self.close(
-                    error_code=QuicErrorCode.PROTOCOL_VIOLATION,
-                    frame_type=QuicFrameType.PADDING,
-                    reason_phrase="Reserved bits must be zero",
-                )
-                return
-
             # log packet
             quic_logger_frames: Optional[list[dict]] = None
             if self._quic_logger is not None:
@@ -1023,6 +1010,19 @@ class QuicConnection:
                         "raw": {"length": header.packet_length},
                     },
                 )
+
+            # check reserved bits
+            if header.packet_type == QuicPacketType.ONE_RTT:
+                reserved_mask = 0x18
+            else:
+                reserved_mask = 0x0C
+            if plain_header[0] & reserved_mask:
+                self.close(
+                    error_code=QuicErrorCode.PROTOCOL_VIOLATION,
+                    frame_type=QuicFrameType.PADDING,
+                    reason_phrase="Reserved bits must be zero",
+                )
+                return
 
             # raise expected packet number
             if packet_number > space.expected_packet_number:
